@@ -398,6 +398,8 @@ func (x *Exec) elemSort(t types.Type) Sort {
 		return x.scalarSort(et)
 	case KStruct:
 		return SRef // elements are boxed: a reference to an immutable copy of the struct value
+	case KSlice:
+		return SRef // a slice of slices: references to boxed slice values
 	}
 	panic(engineErr("containers of composite elements are not supported: %s", t))
 }
